@@ -59,7 +59,8 @@ Step(bus0, f, draws) ==
     IN
     CASE name = "102.DTR0" -> [bus |-> [bus EXCEPT !.dtr0 = lb], resp |-> Silent]
       [] name = "102.SetShortAddress" ->
-           [bus |-> Upd(LAMBDA k, g : IF AddressedBy(g, dest)
+           \* (stuckdel: a unit whose address memory cannot be written at all ignores this command too)
+           [bus |-> Upd(LAMBDA k, g : IF AddressedBy(g, dest) /\ ~g.stuckdel
                                       THEN [g EXCEPT !.short = ShortFromByte(bus.dtr0, g.short)] ELSE g),
             resp |-> Silent]
       [] name = "102.QueryControlGearPresent" ->
